@@ -83,10 +83,23 @@ def InQ.drain : Nat → InQ → InQ
     | none => q
     | some (p, rest) => InQ.drain f { q.appendPacket p with future := rest }
 
-/-- `for i := next+lo; i != next+hi; i++ { if i == seq { inWindow = true } }` over uint16:
-    the loop visits `(hi - lo) mod 2^16` values starting at `next+lo` -/
+/-- closed form of the acceptance-window loop: the loop visits `(hi - lo) mod 2^16` values starting at
+    `next+lo`.  Specification only; `InQ.append` runs the loop itself (`inWindowL`), and
+    `SA.Queue.inWindowL_eq` (SA.Proofs.QueueWindow) proves the two equal for uint16 arguments. -/
 def inWindow (c : Cfg) (next seq : Nat) : Bool :=
   (seq + MOD - (next + c.wlo) % MOD) % MOD < (c.whi + MOD - c.wlo % MOD) % MOD
+
+/-- `for i := …; i != stop; i++ { if i == seq { inWindow = true } }` with `i` a uint16 (the increment
+    wraps); `acc` is the variable `inWindow`.  The fuel only makes the recursion structural: from any
+    uint16 start the loop reaches `stop` after at most 65535 increments (`windowLoop_eq`). -/
+def windowLoop (stop seq : Nat) : Nat → Nat → Bool → Bool
+  | 0, _, acc => acc
+  | f + 1, i, acc =>
+    if i = stop then acc else windowLoop stop seq f ((i + 1) % MOD) (acc || decide (i = seq))
+
+/-- `inWindow := false; for i := q.NextSeqNo + lo; i != q.NextSeqNo + hi; i++ { … }` -/
+def inWindowL (c : Cfg) (next seq : Nat) : Bool :=
+  windowLoop ((next + c.whi) % MOD) seq MOD ((next + c.wlo) % MOD) false
 
 /-- `InQueue.Append`; the Bool is "returned nil" -/
 def InQ.append (c : Cfg) (q : InQ) : Option Pkt → InQ × Bool
@@ -98,7 +111,7 @@ def InQ.append (c : Cfg) (q : InQ) : Option Pkt → InQ × Bool
       let q2 := { q1 with acked := q1.acked ++ [p.seq] }
       let q3 := InQ.drain q2.future.length q2
       ({ q3 with acked := applyTrim c.inTrim c.max q3.acked }, true)
-    else if inWindow c q.next p.seq then
+    else if inWindowL c q.next p.seq then
       ({ q with future := q.future ++ [p], acked := q.acked ++ [p.seq] }, true)
     else (q, false)
 
